@@ -68,13 +68,13 @@ Qed.
 
 Section WithOracles.
 Variable fmtv : list N -> list N -> list N.
-Variable fmt_diff : list N -> list N -> list N.
+Variable fmt_diff : list N -> list N -> list N -> list N.
 Variable fstr : list N -> list N.
 Variable fzero : list N -> bool.
 Variable numeq : list N -> list N -> bool.
 
-Theorem written_sections_read_back ver wrapo m hs c ie cc tr :
-  write_sections fmtv fmt_diff fstr fzero numeq ver wrapo m = Some hs ->
+Theorem written_sections_read_back ver wrapo ifmt m hs c ie cc tr :
+  write_sections fmtv fmt_diff fstr fzero numeq ver wrapo ifmt m = Some hs ->
   section_ok fstr (hs_version hs) KVersion cc (hs_vers_items hs) ->
   section_ok fstr (hs_version hs) KWell cc (s_items (l_well (hs_las hs))) ->
   section_ok fstr (hs_version hs) KCurves cc (s_items (l_curves (hs_las hs))) ->
@@ -85,7 +85,7 @@ Theorem written_sections_read_back ver wrapo m hs c ie cc tr :
   reads_back fstr (hs_version hs) KParameter c ie cc tr (hs_lp hs) (s_items (l_params (hs_las hs))).
 Proof.
   intros Hw Hv Hwl Hc Hp.
-  destruct (write_sections_lines fmtv fmt_diff fstr fzero numeq ver wrapo m hs Hw) as (Lv & Lw & Lc & Lp).
+  destruct (write_sections_lines fmtv fmt_diff fstr fzero numeq ver wrapo ifmt m hs Hw) as (Lv & Lw & Lc & Lp).
   split; [|split; [|split]].
   - exact (lines_read_back fstr _ KVersion c ie cc tr _ _ eq_refl Lv Hv).
   - exact (lines_read_back fstr _ KWell c ie cc tr _ _ eq_refl Lw Hwl).
@@ -96,8 +96,8 @@ Qed.
 (* what write does to the file in memory, as far as the header items go: ~Curves items keep
    everything but (for the first) the unit; ~Well / ~Parameter values are standardized; the
    ~Other text and the data are untouched *)
-Lemma refresh_sss_other mm l2 :
-  refresh_sss fmtv fmt_diff numeq mm = Some l2 -> l_other l2 = l_other (m_las mm).
+Lemma refresh_sss_other f mm l2 :
+  refresh_sss fmtv fmt_diff numeq f mm = Some l2 -> l_other l2 = l_other (m_las mm).
 Proof.
   unfold refresh_sss. cbv zeta. unfold bind.
   repeat (match goal with
@@ -106,8 +106,8 @@ Proof.
   intros [= <-]. reflexivity.
 Qed.
 
-Theorem write_sections_other ver wrapo m hs :
-  write_sections fmtv fmt_diff fstr fzero numeq ver wrapo m = Some hs ->
+Theorem write_sections_other ver wrapo ifmt m hs :
+  write_sections fmtv fmt_diff fstr fzero numeq ver wrapo ifmt m = Some hs ->
   l_other (hs_las hs) = l_other (m_las m).
 Proof.
   unfold write_sections.
@@ -116,11 +116,11 @@ Proof.
     cbv zeta;
     (match goal with |- context [match ?x with Some v => _ | None => None end] =>
        destruct x as [v|]; [|discriminate] end);
-    (match goal with |- context [refresh_sss ?a ?b ?c ?d] =>
-       destruct (refresh_sss a b c d) as [l2|] eqn:Hr; [|discriminate] end);
+    (match goal with |- context [refresh_sss ?a ?b ?c ?d ?e] =>
+       destruct (refresh_sss a b c d e) as [l2|] eqn:Hr; [|discriminate] end);
     repeat (match goal with |- context [match section_lines ?a ?b ?c ?d with _ => _ end] =>
               destruct (section_lines a b c d) as [?|]; [|discriminate] end);
     intros [= <-]; cbn [hs_las with_params with_well l_other];
-    rewrite (refresh_sss_other _ _ Hr); reflexivity.
+    rewrite (refresh_sss_other _ _ _ Hr); reflexivity.
 Qed.
 End WithOracles.
